@@ -201,10 +201,10 @@ def c02(tier, seed):
 
 
 def c10(tier, seed):
-    return _verus_prop("C10", tier, seed, [("layout", r"::(blob|Layout::known_type_for_size|Layout::for_size_internal|Layout::for_size|integer_type|bitfield_unit|Layout::new|align_to|comp_tail_layout)::", None), ("opaque", None, None), ("vouch", None, None), ("impl_debug", r"::(array_arm|instantiation_arm)::", None), ("lattice_constrain", r"::HasVtableAnalysis::", None), ("prim_types", r"::(BindgenContext::is_stdint_type|type_from_named)::", None),
+    return _verus_prop("C10", tier, seed, [("layout", r"::(blob|Layout::known_type_for_size|Layout::for_size_internal|Layout::for_size|integer_type|bitfield_unit|Layout::new|align_to|comp_tail_layout)::", None), ("opaque", None, None), ("vouch", None, None), ("impl_debug", r"::(array_arm|instantiation_arm)::", None), ("base_storage", None, None), ("lattice_constrain", r"::HasVtableAnalysis::", None), ("prim_types", r"::(BindgenContext::is_stdint_type|type_from_named)::", None),
                                            ("constrain", r"::CannotDerive::constrain_type::", None), ("blocklist", None, None), ("repr", None, None)], {
         "trusted_base": LAYOUT_TRUST,
-        "functions_under_contract": ["bindgen/codegen/helpers.rs: blob, integer_type, bitfield_unit", "bindgen/ir/layout.rs: Layout::{known_type_for_size, new, for_size_internal, for_size}",
+        "functions_under_contract": ["bindgen/ir/context.rs: BindgenContext::lookup_sizedness and bindgen/ir/comp.rs: Base::requires_storage, Base::is_virtual (unit base_storage): a base class gets a field of its own unless it is virtual or zero-sized, and a type outside the analysed set (a blocklisted class) counts as zero-sized only when the C compiler gives it no size or it is an empty class - so the use of a blocklisted type as a base still names it (found and repaired F28)", "bindgen/codegen/helpers.rs: blob, integer_type, bitfield_unit", "bindgen/ir/layout.rs: Layout::{known_type_for_size, new, for_size_internal, for_size}",
                                      "bindgen/codegen/mod.rs: Item::process_before_codegen and <Item as CodeGenerator>::codegen (unit blocklist): nothing at all is emitted for a blocklisted item, for an item disabled for code generation, or a second time for the same item - whatever the per-kind generators would do",
                                      "bindgen/ir/item.rs: Item::is_blocklisted; <Item as IsOpaque>::is_opaque, <Type as IsOpaque>::is_opaque (unit opaque: opaque exactly by annotation, by an --opaque-type name match, or through the type: Opaque kind, opaque instantiation / compound / referenced type)",
                                      "bindgen/codegen/mod.rs: the tail of CompInfo::codegen (unit layout, statement R18): an opaque record with a known layout gets exactly one field, a blob of exactly the C size and alignment, and repr(align)",
